@@ -148,7 +148,7 @@ def _algebra_case(draw, tier):
 
 def strategy(tier):
     scen = sampling.scenario_strategy(tier).map(lambda c: dict(c, case="scenario"))
-    return st.one_of(scen, scen, _algebra_case(tier))
+    return st.one_of(scen, scen, scen, scen, _algebra_case(tier), _algebra_case(tier), _data_case())
 
 
 # ------------------------------------------------------------------ algebra execution ------
@@ -405,11 +405,83 @@ def core_sub(ctx):
     return sub
 
 
+# ------------------------------------------------------------------ data with extra axes ---
+@st.composite
+def _data_case(draw):
+    """DataSampler whose data rows carry additional axes ((N, Q, d), e.g. Q quadrature points per row)."""
+    N, Q, d = draw(st.integers(1, 5)), draw(st.integers(1, 4)), draw(st.integers(1, 3))
+    k = draw(st.integers(0, 3))
+    return {"case": "data-axes", "N": N, "Q": Q, "d": d, "as_dict": draw(st.booleans()), "calls": draw(st.integers(1, 2)),
+            "prows": {"p": [[draw(specs.num(0, 1))] for _ in range(k)]} if k else {}}
+
+
+def _run_data(spec, ctx):
+    import contextlib
+    import io
+    N, Q, d, prows = spec["N"], spec["Q"], spec["d"], spec["prows"]
+    k = geo.nrows(prows)
+    data = (torch.arange(N * Q * d, dtype=torch.float32).reshape(N, Q, d) * 0.25 - 1.0)
+    sp = build.space_of("x", d)
+    feat = "data-axes" if Q > 1 else "data-axes|Q1"
+    with ctx.lib("construct", feature=feat):
+        smp = S.DataSampler({"x": data.clone()}) if spec["as_dict"] else S.DataSampler(Points(data.clone(), sp))
+    with ctx.lib("len", feature=feat):
+        l0 = len(smp)
+    if l0 != N:
+        ctx.violation("len", feat + "|before-call", f"len(sampler)={l0} for data of shape {tuple(data.shape)}: a parameter-free call returns {N} rows")
+    params = build.params_points(prows)
+    for call in range(spec["calls"]):
+        for with_params in ([False, True] if k else [False]):
+            with ctx.lib("sample_points", feature=feat + ("|ext" if with_params else "")), contextlib.redirect_stdout(io.StringIO()):
+                R = smp.sample_points(params) if with_params else smp.sample_points()
+            if not isinstance(R, Points):
+                ctx.violation("return-type", feat, f"returned {type(R).__name__}")
+                return None
+            t = R.as_tensor
+            kk = k if with_params else 1
+            if t.shape[0] != N * kk:
+                ctx.violation("rowcount", feat + ("|ext" if with_params else ""), f"{t.shape[0]} rows for {N} data rows and k={k if with_params else 0}")
+                return None
+            co = R.coordinates
+            x = co["x"]
+            if tuple(x.shape) != (N * kk, Q, d) or not torch.equal(x, data.repeat(kk, 1, 1)):
+                ctx.violation("composition", feat, f"call {call}: the data block is not repeated completely per parameter row (shape {tuple(x.shape)})")
+                return None
+            if with_params:
+                pcol = co["p"]
+                want = torch.repeat_interleave(params.as_tensor, N, dim=0)
+                got = pcol.reshape(N * k, -1)
+                if got.shape[0] != N * k or not all(torch.equal(got[:, j:j + 1], want) for j in range(got.shape[1])):
+                    ctx.violation("pairing", feat, f"call {call}: rows i*N..(i+1)*N-1 do not carry parameter row i")
+                    return None
+    if k:
+        # the same pairing through a sampler product (the parameter rows come from a second data sampler)
+        with ctx.lib("construct", feature=feat + "|mul"):
+            prod = (S.DataSampler({"x": data.clone()})) * S.DataSampler({"p": params.as_tensor.clone()})
+        with ctx.lib("sample_points", feature=feat + "|mul"), contextlib.redirect_stdout(io.StringIO()):
+            R = prod.sample_points()
+        t = R.as_tensor
+        if t.shape[0] != N * k:
+            ctx.violation("rowcount", feat + "|mul", f"product with a {k}-row sampler returns {t.shape[0]} rows, not {N * k}")
+        elif not torch.equal(R.coordinates["x"], data.repeat(k, 1, 1)):
+            ctx.violation("composition", feat + "|mul", "product does not pair every partner row with the complete data")
+    with ctx.lib("len", feature=feat):
+        l1 = len(smp)
+    if l1 != N and not k:
+        ctx.violation("len", feat + "|after-call", f"len(sampler)={l1}, a parameter-free call returns {N} rows")
+    return {"nontrivial": bool(Q > 1 and k >= 1), "classes": ["data-axes", "Q%d" % min(Q, 2), "alg-k%d" % min(k, 2)],
+            "summary": {"N": N, "Q": Q, "d": d, "k": k}}
+
+
 def run_case(spec, ctx):
     if spec.get("case") == "algebra":
         return _run_algebra(spec, ctx)
+    if spec.get("case") == "data-axes":
+        return _run_data(spec, ctx)
     return _run_scenario(spec, ctx)
 
 
 def extra_cases(tier, seed):
-    return [dict(c, case="scenario") for c in sampling.pinned_scenarios(seed)]
+    pinned = [{"case": "data-axes", "N": N, "Q": Q, "d": 2, "as_dict": ad, "calls": 2, "prows": {"p": [[0.25], [0.75]][:k]} if k else {}}
+              for N, Q, k, ad in ((3, 2, 2, False), (2, 3, 1, True), (4, 2, 0, False), (1, 4, 2, True))]
+    return [dict(c, case="scenario") for c in sampling.pinned_scenarios(seed)] + pinned
